@@ -582,7 +582,7 @@ fn run_inner(a: &Args, shard: u64, shards: u64) -> Report {
         }
     }
     // (3) typestates: sequences of 1..3 frames (valid for the role or not), every prefix
-    let seq_count: u64 = if a.miri { 6 } else if a.thorough { 40_000 } else { 1_500 };
+    let seq_count: u64 = if a.miri { 6 } else if a.thorough { 40_000 } else { 8_000 };
     for j in 0..seq_count {
         case += 1;
         if !mine(case) {
